@@ -16,7 +16,8 @@ THEOREMS = ['C05_bounded_native_is_spec', 'C05_integer_native_is_spec', 'C05_uns
             'C05_array_occurrence_is_spec', 'C05_flat_array_is_spec', 'C05_array_verdicts_agree',
             'C05_xml_nil_verdict', 'C05_xsi_target_keeps_declared', 'C05_xsi_target_named', 'C05_xsi_target_total',
             'C05_enum_readers_are_spec', 'C05_enum_readers_agree', 'C05_decimal_native_is_spec', 'C05_decimal_verdict_of_number',
-            'C05_decimal_text_leaf_spec', 'C05_decimal_number_is_text']
+            'C05_decimal_text_leaf_spec', 'C05_decimal_number_is_text',
+            'C05_member_freq_by_kind', 'C05_stray_nodes_irrelevant']
 
 INT_CLASSES = {'Integer8': (True, 8), 'Integer16': (True, 16), 'Integer32': (True, 32), 'Integer64': (True, 64),
                'UnsignedInteger8': (False, 8), 'UnsignedInteger16': (False, 16), 'UnsignedInteger32': (False, 32),
@@ -1272,7 +1273,25 @@ def forms_table():
         ('float-integral', Wv(None, 5.0), 5, True, False),
         ('float-fraction', Wv(None, 5.5), NOCHECK, False, False),
         ('float-out-of-range', Wv(None, 200.0), 200, False, False),
+        ('float-nan', Wv(None, nan), NOCHECK, False, False),
+        ('float-inf', Wv(None, inf), NOCHECK, False, False),
+        ('float-neg-inf', Wv(None, -inf), NOCHECK, False, False),
+        ('float-huge', Wv(None, 1e300), NOCHECK, False, False),
         ('list-for-integer', Wv(None, [5]), NOCHECK, False, False)])
+    for texpr, tdesc in (('Integer', 'Integer'), ('UnsignedInteger16', 'UnsignedInteger16'), ('Integer64(le=10)', 'Integer64+le'),
+                         ('UnsignedInteger', 'UnsignedInteger')):
+        add(texpr, tdesc, [
+            ('float-nan', Wv(None, nan), NOCHECK, False, False),
+            ('float-inf', Wv(None, inf), NOCHECK, False, False),
+            ('float-neg-inf', Wv(None, -inf), NOCHECK, False, False),
+            ('float-huge', Wv(None, 1e300), int(1e300), texpr in ('Integer', 'UnsignedInteger'), False),
+            ('float-neg-huge', Wv(None, -1e300), int(-1e300), texpr == 'Integer', False),
+            ('float-integral', Wv(None, 7.0), 7, True, False),
+            ('float-fraction', Wv(None, 7.5), NOCHECK, False, False),
+            ('float-tiny-fraction', Wv(None, 5e-324), NOCHECK, False, False),
+            ('float-neg-zero', Wv(None, -0.0), 0, True, False),
+            ('text-nan', Wv('NaN', 'NaN'), NOCHECK, False, True),
+            ('text-inf', Wv('INF', 'INF'), NOCHECK, False, True)])
     add('Enum("red", "green", type_name="Color")', 'Enum', [
         ('listed', Wv('red', 'red'), NOCHECK, True, True),
         ('not-listed', Wv('blue', 'blue'), NOCHECK, False, True),
@@ -1758,6 +1777,130 @@ def family_null_default(check, tier):
     check.sample({'family': 'null x default x replace_null_with_default', 'types': [t[0] for t in DEFAULT_TYPES[:5]]})
 
 
+def family_member_freq_corr(check, tier):
+    """xml_member_freq (coq/C05/ArrayModel.v) against XmlDocument.from_element on generated classes: random element
+    and attribute members with random bounds, random multisets of child elements and attributes over the same names"""
+    from spyne import ComplexModel, Unicode, XmlAttribute
+    from spyne.model.complex import ComplexModelMeta
+    from spyne.protocol.xml import XmlDocument
+    from lxml import etree
+    rng = check.rng
+    xml = XmlDocument(validator='soft')
+    names = ['a', 'b', 'c', 'd']
+    cases = []
+    for _ in range(40 if tier == 'quick' else 400):
+        members = rng.sample(names, rng.randint(1, 3))
+        decls, ti = [], []
+        for m in members:
+            is_attr = rng.random() < .4
+            mn = rng.choice([0, 0, 1])
+            mx = 1 if is_attr else rng.choice([1, 1, 2, 'unbounded'])
+            T = Unicode(min_occurs=mn, max_occurs=mx)
+            ti.append((m, XmlAttribute(T) if is_attr else T))
+            decls.append('(%s, %s, %s, %s)' % (gtext(m), gbool(is_attr), gz(mn), 'PosInf' if mx == 'unbounded' else '(Fin %s)' % gz(mx)))
+        C = ComplexModelMeta('C', (ComplexModel,), {'__namespace__': TNS, '_type_info': ti})
+        for _ in range(6):
+            children = [rng.choice(names) for _ in range(rng.randint(0, 4))]
+            attrs = rng.sample(names, rng.randint(0, 3))
+            el = etree.Element('{%s}C' % TNS)
+            for c in children:
+                etree.SubElement(el, '{%s}%s' % (TNS, c)).text = 'v'
+            for a in attrs:
+                el.set(a, 'w')
+            from spyne.model.fault import Fault
+            try:
+                xml.from_element(None, C, el)
+                o = ('ok',)
+            except Fault as e:       # the frequency check raises a plain Fault with the ValidationError code
+                o = ('vfault',) if str(e.faultcode).startswith('Client.ValidationError') else ('crash', e.faultcode)
+            except Exception as e:
+                o = ('crash', type(e).__name__)
+            if o[0] == 'crash':
+                check.mismatch('xml_member_freq', 'from_element raised %r for %s' % (o, etree.tostring(el)))
+                continue
+            cases.append(('(%s, %s, %s, %s)' % (glist(decls), glist([gtext(c) for c in children]), glist([gtext(a) for a in attrs]),
+                                               gbool(o[0] == 'ok')), '%r children=%r attrs=%r -> %s' % (ti, children, attrs, o[0])))
+            check.count(('mfreq', repr(decls), tuple(children), tuple(attrs)))
+    lib.correspond(check, 'xml_member_freq', 'From SpyneV Require Import Base.Prelude Base.Ext C05.Valid C05.ArrayModel.',
+                   'list mdecl * list text * list text * bool',
+                   '(fun c => match c with (d, ch, at_, b) => Bool.eqb (xml_member_freq d ch at_) b end)', cases)
+
+
+def family_xml_name_clash(check, tier):
+    """XML / SOAP: an attribute of the parent element that merely shares its NAME with an element member is not an
+    occurrence of that member, and a child element named like an XmlAttribute member is not that attribute: the
+    min / max occurrence verdict of each member looks only at the nodes of its own kind"""
+    from spyne import Application, rpc, ServiceBase, ComplexModel, Unicode, Integer, XmlAttribute
+    from spyne.model.complex import ComplexModelMeta
+    from spyne.protocol.xml import XmlDocument
+    from spyne.protocol.soap import Soap11
+    from spyne.protocol.json import JsonDocument
+    from lxml import etree
+    rng = check.rng
+    calls = []
+    names = ['code', 'kind', 'id', 'v', 'name', 'type', 'value', 'Attributes']
+    for emin in (0, 1):
+        for amin in (0, 1):
+            en, an = rng.sample(names, 2)
+            Item = ComplexModelMeta('Item', (ComplexModel,), {'__namespace__': TNS, '_type_info': [
+                (en, Unicode(min_occurs=emin)), ('qty', Integer), (an, XmlAttribute(Unicode(min_occurs=amin)))]})
+
+            class S(ServiceBase):
+                @rpc(Item, _returns=Unicode)
+                def nested(ctx, x):
+                    calls.append(('nested', None if x is None else (getattr(x, en), getattr(x, an)))); return 'ok'
+
+                @rpc(Unicode(min_occurs=emin), Integer, _returns=Unicode, _in_variable_names={'a': en})
+                def top(ctx, a, qty):
+                    calls.append(('top', (a, None))); return 'ok'
+            ev, av = rng.choice(['A1', 'zz', 'x y']), rng.choice(['k', 'K9'])
+            # (shape, element children of that name, attribute of the element's name?, attribute an?, child named an?, want, delivered)
+            reqs = [('element-absent|stray-attribute', 0, True, True, False, emin == 0, (None, av)),
+                    ('element-once|stray-attribute', 1, True, True, False, True, (ev, av)),
+                    ('element-once|no-stray', 1, False, True, False, True, (ev, av)),
+                    ('element-absent|no-stray', 0, False, True, False, emin == 0, (None, av)),
+                    ('attribute-absent|stray-child', 1, False, False, True, amin == 0, (ev, None)),
+                    ('attribute-present|stray-child', 1, False, True, True, True, (ev, av)),
+                    ('attribute-absent|no-stray', 1, False, False, False, amin == 0, (ev, None))]
+            for proto, P in (('xml', XmlDocument), ('soap11', Soap11)):
+                app = Application([S], TNS, in_protocol=P(validator='soft'), out_protocol=JsonDocument())
+                for pos in ('nested', 'top'):
+                    for shape, n_el, stray_attr, has_attr, stray_child, want, deliv in reqs:
+                        if pos == 'top' and (not has_attr or stray_child):
+                            continue           # the argument list has no attribute members
+                        nsq = '{%s}' % TNS
+                        root = etree.Element(nsq + pos, nsmap={None: TNS})
+                        parent = etree.SubElement(root, nsq + 'x') if pos == 'nested' else root
+                        etree.SubElement(parent, nsq + 'qty').text = '2'
+                        for _ in range(n_el):
+                            etree.SubElement(parent, nsq + en).text = ev
+                        if stray_attr:
+                            parent.set(en, 'stray')
+                        if pos == 'nested' and has_attr:
+                            parent.set(an, av)
+                        if stray_child:
+                            etree.SubElement(parent, nsq + an).text = 'stray'
+                        doc = root
+                        if proto == 'soap11':
+                            doc = etree.Element('{http://schemas.xmlsoap.org/soap/envelope/}Envelope')
+                            etree.SubElement(doc, '{http://schemas.xmlsoap.org/soap/envelope/}Body').append(root)
+                        body = etree.tostring(doc)
+                        res = drive(app, calls, proto, body=body)
+                        got = classify(res)
+                        check.count(('name-clash', emin, amin, en, an, proto, pos, shape))
+                        ok = (got == 'accept') == want and not got.startswith('other')
+                        if ok and got == 'accept':
+                            ok = res[1] == (deliv if pos == 'nested' else (deliv[0], None))
+                        if not ok:
+                            check.fail('C05|xml-name-clash|%s|min_occurs=%d,%d|%s|%s' % (shape, emin, amin, proto, pos),
+                                       'element member %r (min_occurs=%d), attribute member %r (min_occurs=%d), request %s over %s at %s: '
+                                       'expected %s, got %r' % (en, emin, an, amin, body.decode(), proto, pos,
+                                                               'accept with %r' % ((deliv if pos == 'nested' else (deliv[0], None)),) if want else 'reject', res),
+                                       {'family': 'xml-name-clash', 'body': body.decode(), 'protocol': proto, 'element': en, 'attribute': an,
+                                        'element_min_occurs': emin, 'attribute_min_occurs': amin})
+    check.sample({'family': 'element / attribute name clash', 'names': names[:4], 'protocols': ['xml', 'soap11']})
+
+
 def run(check):
     check.rule = ('generated one-argument services around each type under test (every fixed-width integer class, '
                   'arbitrary-size integers, Unicode, Decimal, Double, Boolean, DateTime, Date, Time, Duration, Uuid, Enum with '
@@ -1817,6 +1960,8 @@ def run(check):
     family_enum(check, check.tier)
     family_xsi_type(check, check.tier)
     family_null_default(check, check.tier)
+    family_xml_name_clash(check, check.tier)
+    family_member_freq_corr(check, check.tier)
     lib.flush_correspondences(check)
     return check.finish()
 
@@ -1858,6 +2003,16 @@ def replay(check, path):
         h = Harness(T)
         for proto in ([rp['protocol']] if 'protocol' in rp else rp.get('protocols', ['xml'])):
             print('now (%s):' % proto, h.run(proto, rp.get('position', 'top'), ('val', rp['literal'])))
+    elif rp.get('family') == 'xml-name-clash':
+        class Rec(object):
+            tier = check.tier
+            rng = check.rng
+            def count(self, *a, **k): pass
+            def sample(self, *a, **k): pass
+            def fail(self, key, what, replay):
+                if key == r.get('key'):
+                    print('now:', what)
+        family_xml_name_clash(Rec(), check.tier)
     elif rp.get('family') == 'null-member' or 'min_occurs' in rp:
         # these families build their own services: run the family again and show what it reports for this key
         class Rec(object):
